@@ -292,6 +292,10 @@ func init() {
 			if err != nil {
 				return err
 			}
+			var rc c14RealCase
+			if json.Unmarshal(b, &rc) == nil && strings.HasPrefix(rc.Family, "real-") {
+				return runC14Real(e, &rc)
+			}
 			var wrap struct {
 				Case *hsCase `json:"case"`
 			}
@@ -485,6 +489,15 @@ func init() {
 			}
 			if !found {
 				e.Rep.Violate("impl", "c14-goroutines", fmt.Sprintf("%d goroutine(s) of the library left after all failed handshakes, first at %s", len(left), left[0]), map[string]interface{}{"left": left})
+			}
+		}
+		// real sockets, peers that do not behave after the refusal (one at a time: each ends with a census)
+		for _, rc := range c14RealCases() {
+			if e.Replay != "" {
+				break
+			}
+			if err := runC14Real(e, rc); err != nil {
+				return err
 			}
 		}
 		return nil
